@@ -45,7 +45,8 @@ def e3_plan(ctx):
             for h in ("H13", "H14", "H15"):
                 plan.append((h, kind, "line", 1, 2))
                 plan.append((h, kind, "opcode", 1, 12))
-            plan.append(("H14", kind, "line-helper", 2, 16))
+            if kind in spaces.TM:  # the two classes that go through v / w / vt / wt
+                plan.append(("H14", kind, "line-helper", 2, 16))
             plan.append(("H14P300", kind, "line", 1, 16))
             plan.append(("H15P300", kind, "line", 1, 16))
             for h in ("H10", "H11"):
